@@ -205,7 +205,7 @@ func RunWorker(a WorkerArgs) int {
 				vo.Known = true
 			} else {
 				rf := ReplayFile{Property: a.Prop, World: w.Name, Tier: a.Tier, Seed: a.Seed, RunIndex: idx, Signature: sig, Message: vo.Msg, GenSeed: seed}
-				dir := filepath.Join(a.Root, "replays")
+				dir := replayDir(a.Root)
 				os.MkdirAll(dir, 0o755)
 				path := filepath.Join(dir, fmt.Sprintf("%s-%s-%d-%d.json", a.Prop, slug(sig), a.Seed, idx))
 				b, _ := json.MarshalIndent(rf, "", " ")
@@ -308,7 +308,7 @@ func RunWorker(a WorkerArgs) int {
 			if Hung {
 				// a candidate tape made the library hang: keep what we have, finish this worker
 				rf := ReplayFile{Property: v.Prop, World: w.Name, Tier: a.Tier, Seed: a.Seed, RunIndex: idx, Signature: v.Sig, Message: v.Msg, Tape: min, OrigLen: len(res.Tape), MinExecs: execs}
-				dir := filepath.Join(a.Root, "replays")
+				dir := replayDir(a.Root)
 				os.MkdirAll(dir, 0o755)
 				path := filepath.Join(dir, fmt.Sprintf("%s-%s-%d-%d.json", v.Prop, slug(v.Sig), a.Seed, idx))
 				b, _ := json.MarshalIndent(rf, "", " ")
@@ -334,7 +334,7 @@ func RunWorker(a WorkerArgs) int {
 			}
 			rf.Log = final.Log
 			rf.Schedule = schedLines(final.Sched)
-			dir := filepath.Join(a.Root, "replays")
+			dir := replayDir(a.Root)
 			os.MkdirAll(dir, 0o755)
 			path := filepath.Join(dir, fmt.Sprintf("%s-%s-%d-%d.json", v.Prop, slug(v.Sig), a.Seed, idx))
 			b, _ := json.MarshalIndent(rf, "", " ")
@@ -775,4 +775,13 @@ func assumptions(ws []*World) []string {
 		}
 	}
 	return []string{"sampling of operation histories, not enumeration", "reference model written independently of juniper"}
+}
+
+// replayDir is where replay files go: <root>/replays, or $VERIF_REPLAY_DIR when set (scratch runs
+// against changed trees - several of them may be going on at once - keep their replay files apart).
+func replayDir(root string) string {
+	if d := os.Getenv("VERIF_REPLAY_DIR"); d != "" {
+		return d
+	}
+	return filepath.Join(root, "replays")
 }
